@@ -69,13 +69,29 @@ def q_trace(p):
     return _d([buf.getvalue(), _unp(t)])
 
 
+def q_source_cli(p):
+    """decompile the way the command line does for the k-th pickle of a stack (own numbering of variables and result)"""
+    from fickling.fickle import Interpreter
+    return _d(_unp(Interpreter(p, first_variable_id=3, result_variable="result1").to_ast()))
+
+
+def q_trace_cli(p):
+    from fickling.fickle import Interpreter
+    from fickling.tracing import Trace
+    buf = io.StringIO()
+    with contextlib.redirect_stdout(buf):
+        t = Trace(Interpreter(p, first_variable_id=5, result_variable="result2")).run()
+    return _d([buf.getvalue(), _unp(t)])
+
+
 def q_dumps(p):
     return _d(p.dumps().hex())
 
 
 QUERIES = {"source": q_source, "ast": q_ast, "severity": q_severity, "findings": q_findings,
            "imports": q_imports, "calls": q_calls, "flags": q_flags, "unused": q_unused,
-           "nonstd": q_nonstd, "unsafe": q_unsafe, "trace": q_trace, "dumps": q_dumps}
+           "nonstd": q_nonstd, "unsafe": q_unsafe, "trace": q_trace, "dumps": q_dumps,
+           "source_cli": q_source_cli, "trace_cli": q_trace_cli}
 
 
 def ask(p, q):
